@@ -532,7 +532,7 @@ func (s *socket) flush() {
 		// packet only makes the next batch, and the callback would run before the
 		// packet has been written.
 		packetsFn := s.packetsFn.AllAndClear()
-		if wbuf := s.writeBuffer.AllAndClear(); len(wbuf) > 0 {
+		if wbuf := s.writeBuffer.All(); len(wbuf) > 0 {
 			socket_log.Debug("flushing buffer to transport")
 			s.Emit("flush", wbuf)
 			s.server.Emit("flush", s, wbuf)
@@ -542,6 +542,11 @@ func (s *socket) flush() {
 				s.sentCallbackFn.Push(nil)
 			}
 			s.Transport().Send(wbuf)
+			// the packets leave the buffer only now that the transport has them: a
+			// graceful Close that looks at the buffer while this flush is under way must
+			// still find them there and wait for the drain event, instead of closing the
+			// transport under a batch that has been taken but not yet handed over
+			s.writeBuffer.Splice(0, len(wbuf))
 			s.Emit("drain")
 			s.server.Emit("drain", s)
 		} else if len(packetsFn) > 0 {
